@@ -393,7 +393,12 @@ def evaluate(prop, cases):
             # the implementation did not come back (watchdog) or the worker failed on this case
             ps = [{'kind': 'oracle', 'sig': 'impl-' + io_['out'], 'msg': 'implementation run ended with %s %s' % (io_['out'], io_.get('err', io_.get('stderr', '')))}]
         else:
-            ps = prop.judge(c, io_, None if model_missing else model_out[i])
+            try:
+                ps = prop.judge(c, io_, None if model_missing else model_out[i])
+            except Exception as ex:
+                # the judge could not evaluate what the implementation returned (an outcome of a shape the unchanged code
+                # never produces): that is reported with the case as its replay, never swallowed and never a bare crash
+                ps = [{'kind': 'oracle', 'sig': 'result-not-judgeable', 'msg': 'the result could not be judged (%s: %s): %s' % (type(ex).__name__, ex, json.dumps(io_)[:200])}]
             if isinstance(io_, dict) and '_threads' in io_:
                 ps = ps + [{'kind': 'oracle', 'sig': 'differs-when-called-concurrently-from-threads',
                             'msg': 'the same call made while other threads use the library gives %s' % json.dumps(io_['_threads'])[:300]}]
